@@ -135,12 +135,18 @@ func (h *Handler) delete(lease *Lease) {
 	delete(h.table, string(lease.ClientID))
 }
 
+// reservedIP reports whether ip is our own or the router's address. These are never handed out, whether or not the
+// session still tracks them: a router that stays silent is purged from the host table like any other station.
+func (h *Handler) reservedIP(ip netip.Addr) bool {
+	return ip == h.session.NICInfo.HostAddr4.IP || ip == h.session.NICInfo.RouterAddr4.IP
+}
+
 // allocIPOffer allocates a free IP to the lease entry
 func (h *Handler) allocIPOffer(lease *Lease, reqIP netip.Addr) error {
 	// the requested address is only honoured when it is a usable host address of the client's subnet
 	if reqIP.Is4() && lease.subnet.LAN.Contains(reqIP) && reqIP != lease.subnet.LAN.Addr() && reqIP != lease.subnet.broadcast {
 		if l := h.findByIP(reqIP); l == nil || l.State == StateFree || bytes.Equal(l.ClientID, lease.ClientID) {
-			if h.session.FindIP(reqIP) == nil {
+			if h.session.FindIP(reqIP) == nil && !h.reservedIP(reqIP) {
 				lease.IPOffer = reqIP
 				if Logger.IsInfo() {
 					Logger.Msg("offer").IP("ip", lease.IPOffer).Write()
@@ -155,7 +161,7 @@ func (h *Handler) allocIPOffer(lease *Lease, reqIP netip.Addr) error {
 	for lease.subnet.nextIP.Less(lease.subnet.broadcast) {
 		// for tmpIP.IsValid() {
 		if l := h.findByIP(lease.subnet.nextIP); l == nil || l.State == StateFree {
-			if h.session.FindIP(lease.subnet.nextIP) == nil {
+			if h.session.FindIP(lease.subnet.nextIP) == nil && !h.reservedIP(lease.subnet.nextIP) {
 				ip = lease.subnet.nextIP
 				lease.subnet.nextIP = lease.subnet.nextIP.Next()
 				break
@@ -172,7 +178,7 @@ func (h *Handler) allocIPOffer(lease *Lease, reqIP netip.Addr) error {
 	lease.subnet.nextIP = lease.subnet.FirstIP
 	for lease.subnet.nextIP.Less(lease.subnet.broadcast) {
 		if l := h.findByIP(lease.subnet.nextIP); l == nil || l.State == StateFree {
-			if h.session.FindIP(lease.subnet.nextIP) == nil {
+			if h.session.FindIP(lease.subnet.nextIP) == nil && !h.reservedIP(lease.subnet.nextIP) {
 				ip = lease.subnet.nextIP
 				lease.subnet.nextIP = lease.subnet.nextIP.Next()
 				break
